@@ -415,9 +415,20 @@ impl TextSelection {
     /// Low-level method to get a textselection inside the current one
     /// Note: this is a low level method and will always return an unbound textselection!
     pub fn textselection_by_offset(&self, offset: &Offset) -> Result<TextSelection, StamError> {
+        // a begin-aligned cursor comes from the caller (or the input) as it is: it may be huge
         let (begin, end) = (
-            self.begin + self.beginaligned_cursor(&offset.begin)?,
-            self.begin + self.beginaligned_cursor(&offset.end)?,
+            self.begin
+                .checked_add(self.beginaligned_cursor(&offset.begin)?)
+                .ok_or(StamError::CursorOutOfBounds(
+                    offset.begin,
+                    "TextSelection::textselection_by_offset(): offset exceeds the text selection",
+                ))?,
+            self.begin
+                .checked_add(self.beginaligned_cursor(&offset.end)?)
+                .ok_or(StamError::CursorOutOfBounds(
+                    offset.end,
+                    "TextSelection::textselection_by_offset(): offset exceeds the text selection",
+                ))?,
         );
         if end > self.end {
             //(this also covers the begin, as it may not come after the end)
